@@ -896,6 +896,12 @@ def errors(source, model, wcshelper):
     theta = model[prefix + 'theta'].value
     err_theta = model[prefix + 'theta'].stderr
 
+    # covar_errors marks errors that it could not compute (singular matrix)
+    # with a negative value: these are unknown, not lengths of -2 pixels
+    err_amp, err_xo, err_yo, err_sx, err_sy, err_theta = [
+        np.nan if (e is None or e < 0) else e
+        for e in (err_amp, err_xo, err_yo, err_sx, err_sy, err_theta)]
+
     # an ill-conditioned covariance matrix can give a non-finite error
     if err_amp is not None and np.isfinite(err_amp):
         source.err_peak_flux = err_amp
